@@ -249,8 +249,6 @@ Record disk_inv (e : env) (c : config) (d : disk) : Prop := {
       (forall x, m_backs m x = if nsh e =? 0 then b_items (c_b c) x else None) /\
       (forall t, m_tcp m t = t_items (c_t c) t) /\
       exists f, m_fs m = Some f /\ (forall h, fs_hosts f h = h_items (c_h c) h) /\ (forall h, fs_rssl f h = rssl c h);
-  di_shard_lo : forall j, j < nsh e -> forall x,
-    (match d_shard d j with Some f => f x | None => None end) = if sh e x =? j then b_items (c_b c) x else None;
   di_front : c_fmaps c <> None ->
     (exists f, d_crt d = Some f /\ forall h, f h = h_items (c_h c) h) /\
     (any_host e (h_items (c_h c)) = true ->
@@ -268,6 +266,12 @@ Record disk_inv (e : env) (c : config) (d : disk) : Prop := {
 
 (* no shard file beyond the shard count *)
 Definition no_high_shards (e : env) (d : disk) : Prop := forall j, nsh e <= j -> d_shard d j = None.
+(* shard file j holds the backends of shard j, as they are *)
+Definition shard_holds (e : env) (d : disk) (c : config) (j : N) : Prop :=
+  forall x, (match d_shard d j with Some f => f x | None => None end) = if sh e x =? j then b_items (c_b c) x else None.
+Definition shards_inv (e : env) (c : config) (d : disk) : Prop := forall j, j < nsh e -> shard_holds e d c j.
+(* an instance that has not written a configuration yet knows nothing *)
+Definition virgin (c : config) : Prop := c_globold c = None /\ forall x, b_items (c_b c) x = None.
 
 (* the default backend follows the existence of the backend of the one default service *)
 Definition defp (dn : N) (c : config) : Prop :=
@@ -278,22 +282,34 @@ Definition glob_ok (c : config) : Prop := forall g, c_globold c = Some g -> g = 
 (* what an inline reload loaded is also a rendering of the current state *)
 Definition run_inv (e : env) (s : inst) : Prop :=
   inline e = true -> c_globold (i_cfg s) <> None ->
-  exists r, i_running s = Some r /\ no_high_shards e r /\ disk_inv e (i_cfg s) r.
+  exists r, i_running s = Some r /\ no_high_shards e r /\ shards_inv e (i_cfg s) r /\ disk_inv e (i_cfg s) r.
 
-(* every state a history reaches: either the files are known, or the last update failed *)
+(* every state a history reaches: either the files are known, or the last update failed.
+   Nothing is known of the backend files until the instance has written a configuration
+   ([i_clean]): a restarted controller finds whatever the former one left. *)
 Definition reach (e : env) (dn : N) (s : inst) : Prop :=
-  dom e (i_cfg s) /\ no_high_shards e (i_disk s) /\ clean (i_cfg s) /\ defp dn (i_cfg s) /\ glob_ok (i_cfg s) /\
-  (i_failed s = true \/ (i_failed s = false /\ disk_inv e (i_cfg s) (i_disk s) /\ run_inv e s /\
-                         (c_globold (i_cfg s) <> None -> c_fmaps (i_cfg s) <> None))).
+  dom e (i_cfg s) /\ clean (i_cfg s) /\ defp dn (i_cfg s) /\ glob_ok (i_cfg s) /\
+  (i_clean s = true -> no_high_shards e (i_disk s)) /\
+  (i_failed s = true \/
+   (i_failed s = false /\ disk_inv e (i_cfg s) (i_disk s) /\ run_inv e s /\
+    (c_globold (i_cfg s) <> None -> c_fmaps (i_cfg s) <> None) /\
+    (i_clean s = true -> shards_inv e (i_cfg s) (i_disk s)) /\
+    (i_clean s = false -> virgin (i_cfg s)))).
 
 (* after a successful update *)
 Definition good (e : env) (dn : N) (s : inst) : Prop :=
-  dom e (i_cfg s) /\ no_high_shards e (i_disk s) /\ clean (i_cfg s) /\ defp dn (i_cfg s) /\ glob_ok (i_cfg s) /\
-  i_failed s = false /\ disk_inv e (i_cfg s) (i_disk s) /\ run_inv e s /\
+  dom e (i_cfg s) /\ clean (i_cfg s) /\ defp dn (i_cfg s) /\ glob_ok (i_cfg s) /\
+  i_failed s = false /\ i_clean s = true /\ no_high_shards e (i_disk s) /\
+  shards_inv e (i_cfg s) (i_disk s) /\ disk_inv e (i_cfg s) (i_disk s) /\ run_inv e s /\
   c_globold (i_cfg s) <> None /\ c_fmaps (i_cfg s) <> None.
 
 Lemma good_reach : forall e dn s, good e dn s -> reach e dn s.
-Proof. intros e dn s [H1 [H2 [H3 [H4 [H5 [H6 [H7 [H8 [H9 H10]]]]]]]]]. repeat (split; auto). Qed.
+Proof.
+  intros e dn s [H1 [H2 [H3 [H4 [H5 [H6 [H7 [H8 [H9 [H10 [H11 H12]]]]]]]]]]].
+  split; auto. split; auto. split; auto. split; auto. split; auto.
+  right. split; auto. split; auto. split; auto. split; auto. split; auto.
+  intros C. congruence.
+Qed.
 
 (* ================================================================ a batch, relative to the committed state *)
 
@@ -631,14 +647,15 @@ Proof.
   destruct (armed fs FTcpCrt && _); intros H; inversion H; reflexivity.
 Qed.
 
-Definition config_w (e : env) (fs : list fpoint) (c : config) (d : disk) : disk :=
+Definition config_w (e : env) (fs : list fpoint) (cl : bool) (c : config) (d : disk) : disk :=
   let d1 := with_main d (Some (render_main e c)) in
   with_shard d1 (fun j => if (j <? nsh e) && b_chg (c_b c) j && negb (shard_fails e fs c (Some j))
-                          then Some (restrict_shard e (b_items (c_b c)) j) else d_shard d1 j).
-Lemma ph_config_ok : forall e fs c d d', ph_config e fs c d = (d', false) ->
-  d' = config_w e fs c d /\ shard_fails e fs c None = false.
+                          then Some (restrict_shard e (b_items (c_b c)) j)
+                          else if cl || shard_fails e fs c None then d_shard d1 j else None).
+Lemma ph_config_ok : forall e fs cl c d d', ph_config e fs cl c d = (d', false) ->
+  d' = config_w e fs cl c d /\ shard_fails e fs c None = false.
 Proof.
-  intros e fs c d d'. unfold ph_config, config_w. destruct (armed fs FMain); [intros H; inversion H|].
+  intros e fs cl c d d'. unfold ph_config, config_w. destruct (armed fs FMain); [intros H; inversion H|].
   intros H. inversion H. auto.
 Qed.
 Lemma shard_fails_upto : forall e fs c j, shard_fails e fs c None = false -> shard_fails e fs c (Some j) = false.
@@ -648,8 +665,8 @@ Proof.
   destruct p; auto. rewrite andb_true_r in H1. rewrite H1. reflexivity.
 Qed.
 
-Definition mk_inst (c : config) (d : disk) (f : bool) (r : option disk) (p : bool) : inst :=
-  {| i_cfg := c; i_disk := d; i_failed := f; i_running := r; i_pending := p |}.
+Definition mk_inst (c : config) (d : disk) (f : bool) (cl : bool) (r : option disk) (p : bool) : inst :=
+  {| i_cfg := c; i_disk := d; i_failed := f; i_clean := cl; i_running := r; i_pending := p |}.
 
 (* what an update that reports success did *)
 Lemma update_f_ok : forall e fs s s', update_f e fs s = (s', false) ->
@@ -660,10 +677,10 @@ Lemma update_f_ok : forall e fs s s', update_f e fs s = (s', false) ->
   let d2 := front_w e c1 d1 in
   let d3 := backmaps_w e c2 d2 in
   let d4 := tcpcrt_w e c2 d3 in
-  (updated e c2 = true /\ s' = mk_inst (config_commit c2) d4 false (i_running s) (i_pending s)) \/
+  (updated e c2 = true /\ s' = mk_inst (config_commit c2) d4 false (i_clean s) (i_running s) (i_pending s)) \/
   (updated e c2 = false /\ shard_fails e fs c2 None = false /\
-   s' = mk_inst (config_commit c2) (config_w e fs c2 d4) false
-          (if inline e then Some (config_w e fs c2 d4) else i_running s)
+   s' = mk_inst (config_commit c2) (config_w e fs (i_clean s) c2 d4) false true
+          (if inline e then Some (config_w e fs (i_clean s) c2 d4) else i_running s)
           (if inline e then i_pending s else true)).
 Proof.
   intros e fs s s'. unfold update_f.
@@ -678,7 +695,7 @@ Proof.
   cbv zeta.
   destruct (updated e _) eqn:U.
   - unfold finish. intros H. inversion H. left. auto.
-  - destruct (ph_config e fs _ _) as [d5 e5] eqn:P5.
+  - destruct (ph_config e fs _ _ _) as [d5 e5] eqn:P5.
     destruct e5; [unfold finish; intros H; inversion H|]. apply ph_config_ok in P5. destruct P5 as [-> SF].
     right. split; auto. split; auto.
     destruct (inline e).
@@ -738,17 +755,19 @@ Lemma tcpcrt_w_others : forall e c d,
   d_tcpmap (tcpcrt_w e c d) = d_tcpmap d.
 Proof. intros. unfold tcpcrt_w. cbn. repeat split. Qed.
 
-Lemma config_w_others : forall e fs c d,
-  d_crt (config_w e fs c d) = d_crt d /\ d_hostmap (config_w e fs c d) = d_hostmap d /\
-  d_rootredir (config_w e fs c d) = d_rootredir d /\ d_rootssl (config_w e fs c d) = d_rootssl d /\
-  d_backmap (config_w e fs c d) = d_backmap d /\ d_tcpmap (config_w e fs c d) = d_tcpmap d /\
-  d_tcpcrt (config_w e fs c d) = d_tcpcrt d.
+Lemma config_w_others : forall e fs cl c d,
+  d_crt (config_w e fs cl c d) = d_crt d /\ d_hostmap (config_w e fs cl c d) = d_hostmap d /\
+  d_rootredir (config_w e fs cl c d) = d_rootredir d /\ d_rootssl (config_w e fs cl c d) = d_rootssl d /\
+  d_backmap (config_w e fs cl c d) = d_backmap d /\ d_tcpmap (config_w e fs cl c d) = d_tcpmap d /\
+  d_tcpcrt (config_w e fs cl c d) = d_tcpcrt d.
 Proof. intros. unfold config_w. cbn. repeat split. Qed.
-Lemma config_w_shard : forall e fs c d j, shard_fails e fs c None = false ->
-  d_shard (config_w e fs c d) j =
-  if (j <? nsh e) && b_chg (c_b c) j then Some (restrict_shard e (b_items (c_b c)) j) else d_shard d j.
+Lemma config_w_shard : forall e fs cl c d j, shard_fails e fs c None = false ->
+  d_shard (config_w e fs cl c d) j =
+  if (j <? nsh e) && b_chg (c_b c) j then Some (restrict_shard e (b_items (c_b c)) j)
+  else if cl then d_shard d j else None.
 Proof.
-  intros e fs c d j H. unfold config_w. cbn. rewrite (shard_fails_upto _ _ _ j H). cbn. rewrite andb_true_r. reflexivity.
+  intros e fs cl c d j H. unfold config_w. cbn. rewrite (shard_fails_upto _ _ _ j H). rewrite H. cbn.
+  rewrite andb_true_r, orb_false_r. reflexivity.
 Qed.
 
 (* the frontend maps are not read by the other decisions *)
@@ -772,6 +791,7 @@ Proof. intros. reflexivity. Qed.
 Section Core.
 Variable e : env.
 Variable fs : list fpoint.
+Variable cl : bool.
 Variable c1 : config.
 Variable d0 : disk.
 Let c2 := front_c e c1.
@@ -780,8 +800,6 @@ Let d2 := front_w e c1 d1.
 Let d3 := backmaps_w e c2 d2.
 Let d4 := tcpcrt_w e c2 d3.
 
-Definition shard_holds (d : disk) (c : config) (j : N) : Prop :=
-  forall x, (match d_shard d j with Some f => f x | None => None end) = if sh e x =? j then b_items (c_b c) x else None.
 Definition main_holds (d : disk) (c : config) : Prop :=
   exists m, d_main d = Some m /\ m_glob m = c_glob c /\ m_def m = b_def (c_b c) /\
     (forall x, m_backs m x = if nsh e =? 0 then b_items (c_b c) x else None) /\
@@ -803,9 +821,12 @@ Hypothesis A_front : front_guard e c1 = false ->
 Hypothesis A_add : forall x a, b_add (c_b c1) x = Some a -> b_items (c_b c1) x = Some a.
 Hypothesis A_back : forall x bc, b_items (c_b c1) x = Some bc -> needs_map bc = true ->
   (backs_changed e (c_b c1) = false \/ b_add (c_b c1) x = None) -> d_backmap d0 x = Some (bpaths bc).
-Hypothesis A_shard : forall j, j < nsh e -> b_chg (c_b c1) j = false -> shard_holds d0 c1 j.
-Hypothesis A_high : no_high_shards e d0.
-Hypothesis A_upd : updated e c1 = true -> main_holds d0 c1 /\ forall j, j < nsh e -> shard_holds d0 c1 j.
+Hypothesis A_shard : cl = true -> forall j, j < nsh e -> b_chg (c_b c1) j = false -> shard_holds e d0 c1 j.
+Hypothesis A_fresh : cl = false -> forall j, j < nsh e -> b_chg (c_b c1) j = false ->
+  forall x, sh e x = j -> b_items (c_b c1) x = None.
+Hypothesis A_high : cl = true -> no_high_shards e d0.
+Hypothesis A_upd : updated e c1 = true ->
+  main_holds d0 c1 /\ (forall j, j < nsh e -> shard_holds e d0 c1 j) /\ no_high_shards e d0.
 
 Lemma c2_fields : c_b c2 = c_b c1 /\ c_h c2 = c_h c1 /\ c_t c2 = c_t c1 /\ c_glob c2 = c_glob c1.
 Proof. destruct (front_c_fields e c1) as [H1 [H2 [H3 [H4 _]]]]. auto. Qed.
@@ -875,13 +896,12 @@ Proof.
   eexists; split; [reflexivity|]. reflexivity.
 Qed.
 
-(* everything but the main file and the shards *)
+(* everything but the shards *)
 Lemma core_rest : forall d, d_crt d = d_crt d4 -> d_hostmap d = d_hostmap d4 -> d_rootredir d = d_rootredir d4 ->
   d_rootssl d = d_rootssl d4 -> d_backmap d = d_backmap d4 -> d_tcpmap d = d_tcpmap d4 -> d_tcpcrt d = d_tcpcrt d4 ->
-  main_holds d c1 -> (forall j, j < nsh e -> shard_holds d c1 j) ->
-  disk_inv e (config_commit c2) d.
+  main_holds d c1 -> disk_inv e (config_commit c2) d.
 Proof.
-  intros d E1 E2 E3 E4 E5 E6 E7 Hm Hs.
+  intros d E1 E2 E3 E4 E5 E6 E7 Hm.
   destruct c2_fields as [Cb [Ch [Ct Cg]]].
   assert (R : forall h, rssl (config_commit c2) h = rssl c1 h) by (intros h; unfold rssl; cbn; rewrite Cb, Ch; reflexivity).
   assert (AR : any_rssl e (rssl (config_commit c2)) = any_rssl e (rssl c1)) by (apply existsb_ext_in; intros; apply R).
@@ -889,7 +909,6 @@ Proof.
     rewrite ?Cb, ?Ch, ?Ct, ?Cg.
   - intros _. destruct Hm as [m [M1 [M2 [M3 [M4 [M5 [f [M6 [M7 M8]]]]]]]]]. exists m. repeat split; auto.
     exists f. repeat split; auto. intros h. rewrite M8. symmetry. apply R.
-  - exact Hs.
   - intros _. generalize core_front. unfold front_holds. rewrite E1, E2, E3, E4.
     intros [F1 [F2 F3]]. split; [exact F1|]. split; [exact F2|].
     rewrite AR. intros A. destruct (F3 A) as [f [Hf Hh]]. exists f. split; auto. intros h. rewrite R. auto.
@@ -900,33 +919,43 @@ Proof.
   - intros p Hp. rewrite E7. apply core_tcpcrt; auto.
 Qed.
 
-Lemma core_upd : updated e c2 = true -> disk_inv e (config_commit c2) d4 /\ no_high_shards e d4.
+Lemma shard_holds_commit : forall d j, shard_holds e d c1 j -> shard_holds e d (config_commit c2) j.
 Proof.
-  intros U. unfold c2 in U. rewrite updated_front_c in U. destruct (A_upd U) as [Hm Hs].
-  destruct d4_fields as [Dm [Ds _]]. split.
-  - apply core_rest; auto.
-    + unfold main_holds. rewrite Dm. exact Hm.
-    + intros j Hj. unfold shard_holds. rewrite Ds. apply Hs; auto.
-  - unfold no_high_shards. rewrite Ds. exact A_high.
+  intros d j H x. destruct c2_fields as [Cb _]. cbn [config_commit c_b backs_commit b_items]. rewrite Cb. apply H.
+Qed.
+
+Lemma core_upd : updated e c2 = true ->
+  disk_inv e (config_commit c2) d4 /\ shards_inv e (config_commit c2) d4 /\ no_high_shards e d4.
+Proof.
+  intros U. unfold c2 in U. rewrite updated_front_c in U. destruct (A_upd U) as [Hm [Hs Hh]].
+  destruct d4_fields as [Dm [Ds _]]. split; [|split].
+  - apply core_rest; auto. unfold main_holds. rewrite Dm. exact Hm.
+  - intros j Hj. apply shard_holds_commit. unfold shard_holds. rewrite Ds. apply Hs; auto.
+  - unfold no_high_shards. rewrite Ds. exact Hh.
 Qed.
 
 Lemma core_wr : shard_fails e fs c2 None = false ->
-  disk_inv e (config_commit c2) (config_w e fs c2 d4) /\ no_high_shards e (config_w e fs c2 d4).
+  disk_inv e (config_commit c2) (config_w e fs cl c2 d4) /\
+  shards_inv e (config_commit c2) (config_w e fs cl c2 d4) /\
+  no_high_shards e (config_w e fs cl c2 d4).
 Proof.
   intros SF. destruct d4_fields as [Dm [Ds _]]. destruct c2_fields as [Cb [Ch [Ct Cg]]].
-  destruct (config_w_others e fs c2 d4) as [W1 [W2 [W3 [W4 [W5 [W6 W7]]]]]].
-  split.
+  destruct (config_w_others e fs cl c2 d4) as [W1 [W2 [W3 [W4 [W5 [W6 W7]]]]]].
+  split; [|split].
   - apply core_rest; auto.
-    + unfold main_holds, config_w. cbn. eexists. split; [reflexivity|]. cbn. rewrite Cb, Ct, Cg.
-      repeat split; auto.
-      * intros x. destruct (nsh e =? 0); reflexivity.
-      * destruct c2_fmaps as [f [Hf Hh]]. exists f. destruct Hh. repeat split; auto.
-    + intros j Hj. unfold shard_holds. rewrite (config_w_shard e fs c2 d4 j SF). rewrite Cb.
-      apply N.ltb_lt in Hj. rewrite Hj. cbn [andb]. destruct (b_chg (c_b c1) j) eqn:C.
-      * intros x. reflexivity.
-      * rewrite Ds. apply A_shard; auto. apply N.ltb_lt; auto.
-  - intros j Hj. rewrite (config_w_shard e fs c2 d4 j SF).
-    assert (L : (j <? nsh e) = false) by (apply N.ltb_ge; auto). rewrite L. cbn [andb]. rewrite Ds. apply A_high; auto.
+    unfold main_holds, config_w. cbn. eexists. split; [reflexivity|]. cbn. rewrite Cb, Ct, Cg.
+    repeat split; auto.
+    + intros x. destruct (nsh e =? 0); reflexivity.
+    + destruct c2_fmaps as [f [Hf Hh]]. exists f. destruct Hh. repeat split; auto.
+  - intros j Hj. apply shard_holds_commit. unfold shard_holds. rewrite (config_w_shard e fs cl c2 d4 j SF). rewrite Cb.
+    assert (Hj' := Hj). apply N.ltb_lt in Hj'. rewrite Hj'. cbn [andb]. destruct (b_chg (c_b c1) j) eqn:C.
+    + intros x. reflexivity.
+    + destruct cl eqn:Ecl.
+      * rewrite Ds. apply A_shard; auto.
+      * intros x. destruct (N.eqb_spec (sh e x) j) as [E|E]; auto. symmetry. apply (A_fresh eq_refl j); auto.
+  - intros j Hj. rewrite (config_w_shard e fs cl c2 d4 j SF).
+    assert (L : (j <? nsh e) = false) by (apply N.ltb_ge; auto). rewrite L. cbn [andb].
+    destruct cl eqn:Ecl; auto. rewrite Ds. apply A_high; auto.
 Qed.
 End Core.
 
@@ -1031,24 +1060,29 @@ Proof.
       exfalso. apply (Ri h hc b Eh Er). apply (mb4 _ _ _ Mb); auto. congruence.
 Qed.
 
-Record upd_pre (e : env) (c1 : config) (d0 : disk) : Prop := {
+Record upd_pre (e : env) (cl : bool) (c1 : config) (d0 : disk) : Prop := {
   p_tcp : t_chg (c_t c1) = false -> forall p, port_used e (t_items (c_t c1)) p = true ->
     exists f, d_tcpmap d0 p = Some f /\ forall t, f t = restrict_port (t_items (c_t c1)) p t;
   p_front : front_guard e c1 = false -> (exists f, c_fmaps c1 = Some f /\ fmaps_hold c1 f) /\ front_holds e d0 c1;
   p_add : forall x a, b_add (c_b c1) x = Some a -> b_items (c_b c1) x = Some a;
   p_back : forall x bc, b_items (c_b c1) x = Some bc -> needs_map bc = true ->
     (backs_changed e (c_b c1) = false \/ b_add (c_b c1) x = None) -> d_backmap d0 x = Some (bpaths bc);
-  p_shard : forall j, j < nsh e -> b_chg (c_b c1) j = false -> shard_holds e d0 c1 j;
-  p_high : no_high_shards e d0;
-  p_upd : updated e c1 = true -> main_holds e d0 c1 /\ forall j, j < nsh e -> shard_holds e d0 c1 j
+  p_shard : cl = true -> forall j, j < nsh e -> b_chg (c_b c1) j = false -> shard_holds e d0 c1 j;
+  p_fresh : cl = false -> forall j, j < nsh e -> b_chg (c_b c1) j = false ->
+    forall x, sh e x = j -> b_items (c_b c1) x = None;
+  p_high : cl = true -> no_high_shards e d0;
+  p_upd : updated e c1 = true ->
+    main_holds e d0 c1 /\ (forall j, j < nsh e -> shard_holds e d0 c1 j) /\ no_high_shards e d0
 }.
 
 (* the committed state was good: whatever the update skips is still right *)
-Lemma upd_pre_good : forall e dn c0 c1 md d0,
+Lemma upd_pre_good : forall e dn cl c0 c1 md d0,
   dom e c1 -> mid e c0 c1 md -> ready dn c1 -> glob_ok c0 -> defp dn c0 ->
-  disk_inv e c0 d0 -> no_high_shards e d0 -> upd_pre e c1 d0.
+  disk_inv e c0 d0 ->
+  (cl = true -> shards_inv e c0 d0 /\ no_high_shards e d0) -> (cl = false -> virgin c0) ->
+  upd_pre e cl c1 d0.
 Proof.
-  intros e dn c0 c1 md d0 D M R G Dp I Hi.
+  intros e dn cl c0 c1 md d0 D M R G Dp I Hcl Hvg.
   assert (D' := D). destruct D' as [Db [Dh Dt]]. assert (M' := M). destruct M' as [Mb Mr].
   constructor.
   - (* tcp maps *)
@@ -1084,9 +1118,11 @@ Proof.
     { destruct (b_del (c_b c1) x) eqn:Dl; auto. rewrite (mb4 _ _ _ Mb x A) in Hx; congruence. }
     apply (di_back _ _ _ I); auto. rewrite <- (mb3 _ _ _ Mb x A Dl). auto.
   - (* shards *)
-    intros j Hj C x. rewrite (di_shard_lo _ _ _ I j Hj x). destruct (N.eqb_spec (sh e x) j); auto.
+    intros Ecl j Hj C x. destruct (Hcl Ecl) as [Hs _]. rewrite (Hs j Hj x). destruct (N.eqb_spec (sh e x) j); auto.
     symmetry. apply (shard_unflagged e _ _ j); auto.
-  - exact Hi.
+  - (* a new instance: the shards it does not flag have no backend *)
+    intros Ecl j Hj C x Hx. destruct (Hvg Ecl) as [_ Hv]. rewrite <- (Hv x). apply (shard_unflagged e _ _ j); auto.
+  - intros Ecl. apply (Hcl Ecl).
   - (* no-op *)
     intros U. destruct (updated_same e c0 c1 md D M G U) as [-> [Go [Eg [Et [Eh Eb]]]]].
     assert (Er : forall h, rssl c1 h = rssl c0 h) by (apply rssl_ext; auto).
@@ -1096,14 +1132,17 @@ Proof.
       { rewrite M3. destruct R as [R _]. rewrite R. unfold defp in Dp. rewrite Dp. rewrite Eb. reflexivity. }
       split; [intros x; rewrite M4, Eb; reflexivity|]. split; [intros t; rewrite M5, Et; reflexivity|].
       exists f. split; auto. split; intros h; [rewrite M7, Eh|rewrite M8, Er]; reflexivity.
-    + intros j Hj x. rewrite (di_shard_lo _ _ _ I j Hj x). rewrite Eb. reflexivity.
+    + assert (Ecl : cl = true).
+      { destruct cl; auto. destruct (Hvg eq_refl) as [Hv _]. congruence. }
+      destruct (Hcl Ecl) as [Hs Hh]. split; auto.
+      intros j Hj x. rewrite (Hs j Hj x). rewrite Eb. reflexivity.
 Qed.
 
 (* the last update failed: changeAll makes the update skip nothing *)
-Lemma upd_pre_failed : forall e i0 c d0, dom e c -> MB e i0 (c_b c) -> no_high_shards e d0 ->
-  upd_pre e (config_change_all e c) d0.
+Lemma upd_pre_failed : forall e i0 cl c d0, dom e c -> MB e i0 (c_b c) -> (cl = true -> no_high_shards e d0) ->
+  upd_pre e cl (config_change_all e c) d0.
 Proof.
-  intros e i0 c d0 [Db [Dh Dt]] Mb Hi. constructor; cbn.
+  intros e i0 cl c d0 [Db [Dh Dt]] Mb Hi. constructor; cbn.
   - discriminate.
   - unfold front_guard. cbn. discriminate.
   - intros x a. destruct (b_items (c_b c) x) eqn:E; auto. intros A. rewrite (mb2 _ _ _ Mb x a A) in E. discriminate.
@@ -1111,7 +1150,8 @@ Proof.
     + exfalso. assert (Ix : In x (UB e)) by (apply Db; left; congruence).
       apply (existsb_false _ _ _ Hc) in Ix. cbn in Ix. rewrite Hx in Ix. discriminate.
     + rewrite Hx in Hc. discriminate.
-  - intros j Hj C. apply N.ltb_lt in Hj. rewrite Hj in C. discriminate.
+  - intros _ j Hj C. apply N.ltb_lt in Hj. rewrite Hj in C. discriminate.
+  - intros _ j Hj C. apply N.ltb_lt in Hj. rewrite Hj in C. discriminate.
   - exact Hi.
   - unfold updated. cbn. discriminate.
 Qed.
@@ -1149,7 +1189,6 @@ Proof.
     exists m. split; auto. split; [congruence|]. split; [congruence|].
     split; [intros x; rewrite M4, Eb; reflexivity|]. split; [intros t; rewrite M5, Et; reflexivity|].
     exists f. split; auto. split; intros h; [rewrite M7, Eh|rewrite M8, Er]; reflexivity.
-  - intros j Hj x. rewrite (di_shard_lo _ _ _ I j Hj x). rewrite Eb. reflexivity.
   - intros _. destruct (di_front _ _ _ I Fo) as [[f [F1 F2]] [F3 F4]].
     rewrite (any_host_ext e _ _ Eh). rewrite (any_rssl_ext e _ _ Er). split; [|split].
     + exists f. split; auto. intros h. rewrite F2, Eh. reflexivity.
@@ -1164,6 +1203,10 @@ Proof.
   - intros p Hp. rewrite (port_tls_ext e _ _ p Et) in Hp. destruct (di_tcpcrt _ _ _ I p Hp) as [f [Hf Hg]].
     exists f. split; auto. intros t. rewrite Hg. unfold restrict_port. rewrite Et. reflexivity.
 Qed.
+
+Lemma shards_inv_transfer : forall e c c' d, (forall x, b_items (c_b c') x = b_items (c_b c) x) ->
+  shards_inv e c d -> shards_inv e c' d.
+Proof. intros e c c' d Eb H j Hj x. rewrite (H j Hj x). rewrite Eb. reflexivity. Qed.
 
 Lemma front_c_fmaps : forall e c, c_fmaps (front_c e c) <> None.
 Proof.
@@ -1183,23 +1226,23 @@ Lemma update_good : forall e dn fs s0 l s',
   shard_range e -> reach e dn s0 -> wf_batch e dn (i_cfg s0) l ->
   update_f e fs (sync e s0 l) = (s', false) -> good e dn s'.
 Proof.
-  intros e dn fs s0 l s' SR [D0 [NH0 [Cl0 [Dp0 [G0 St]]]]] [Shape [Oin Rdy]] U.
+  intros e dn fs s0 l s' SR [D0 [Cl0 [Dp0 [G0 [NH0 St]]]]] [Shape [Oin Rdy]] U.
   set (cs := apply_ops e (i_cfg s0) l) in *.
   assert (Dcs : dom e cs) by (apply dom_apply_ops; auto).
   destruct (mid_batch e (i_cfg s0) l SR D0 Cl0 Shape) as [md Mcs]. fold cs in Mcs.
   assert (Dsh : dom e (config_shrink e cs)) by (apply dom_shrink; auto).
   assert (Msh : mid e (i_cfg s0) (config_shrink e cs) md) by (apply mid_shrink; auto).
   assert (Rsh : ready dn (config_shrink e cs)) by (apply (ready_shrink e dn (i_cfg s0) cs md); auto).
-  apply update_f_ok in U. cbn [sync i_cfg i_disk i_failed i_running i_pending] in U. fold cs in U.
+  apply update_f_ok in U. cbn [sync i_cfg i_disk i_failed i_clean i_running i_pending] in U. fold cs in U.
   (* c1: the configuration the phases see *)
   set (c1 := if i_failed s0 then config_change_all e (config_shrink e cs) else config_shrink e cs) in *.
   assert (Dc1 : dom e c1) by (unfold c1; destruct (i_failed s0); auto using dom_change_all).
   assert (Rc1 : ready dn c1) by (unfold c1; destruct (i_failed s0); auto).
-  assert (P : upd_pre e c1 (i_disk s0)).
-  { unfold c1. destruct St as [F|[F [I0 _]]]; rewrite F.
-    - destruct Msh as [Mb _]. apply (upd_pre_failed e _ _ _ Dsh Mb NH0).
-    - apply (upd_pre_good e dn (i_cfg s0) _ md); auto. }
-  destruct P as [P1 P2 P3 P4 P5 P6 P7].
+  assert (P : upd_pre e (i_clean s0) c1 (i_disk s0)).
+  { unfold c1. destruct St as [F|[F [I0 [_ [_ [Hs Hv]]]]]]; rewrite F.
+    - destruct Msh as [Mb _]. apply (upd_pre_failed e _ _ _ _ Dsh Mb NH0).
+    - apply (upd_pre_good e dn _ (i_cfg s0) _ md); auto. }
+  destruct P as [P1 P2 P3 P4 P5 P5' P6 P7].
   assert (Dc2 : dom e (config_commit (front_c e c1))) by (apply dom_commit; apply dom_front_c; auto).
   assert (Dp2 : defp dn (config_commit (front_c e c1))).
   { unfold defp. cbn [config_commit c_b backs_commit b_def b_items]. destruct (front_c_fields e c1) as [Hb _]. rewrite Hb. apply Rc1. }
@@ -1207,20 +1250,26 @@ Proof.
   { unfold glob_ok. cbn [config_commit c_globold c_glob]. intros g Hg. congruence. }
   destruct U as [[Up ->]|[Up [SF ->]]].
   - (* taken for a no-op *)
-    destruct (core_upd e c1 (i_disk s0) P1 P2 P3 P4 P6 P7 Up) as [I NH].
-    unfold good, mk_inst. cbn [i_cfg i_disk i_failed i_running i_pending].
+    destruct (core_upd e c1 (i_disk s0) P1 P2 P3 P4 P7 Up) as [I [Sh NH]].
+    rewrite updated_front_c in Up.
+    destruct St as [F|[F [I0 [Rn0 [Gf0 [Hs Hv]]]]]].
+    { exfalso. unfold c1 in Up. rewrite F in Up. unfold updated in Up. cbn in Up. discriminate. }
+    unfold c1 in Up. rewrite F in Up.
+    destruct (updated_same e (i_cfg s0) _ md Dsh Msh G0 Up) as [_ [Go [Eg [Et [Eh Eb]]]]].
+    assert (Ecl : i_clean s0 = true).
+    { destruct (i_clean s0); auto. destruct (Hv eq_refl) as [Hv' _]. congruence. }
+    unfold good, mk_inst. cbn [i_cfg i_disk i_failed i_clean i_running i_pending].
     repeat (split; [solve [auto using clean_commit]|]).
     split; [|split; [cbn; discriminate|apply front_c_fmaps]].
     (* the running instance *)
-    intros Inl _. rewrite updated_front_c in Up.
-    destruct St as [F|[F [I0 [Rn0 Gf0]]]].
-    + exfalso. unfold c1 in Up. rewrite F in Up. unfold updated in Up. cbn in Up. discriminate.
-    + unfold c1 in Up. rewrite F in Up.
-      destruct (updated_same e (i_cfg s0) _ md Dsh Msh G0 Up) as [_ [Go [Eg [Et [Eh Eb]]]]].
-      destruct (Rn0 Inl Go) as [r [Hr [NHr Ir]]]. exists r. split; auto. split; auto.
-      assert (Ec1 : c1 = config_shrink e cs) by (unfold c1; rewrite F; reflexivity).
-      destruct (front_c_fields e c1) as [Hb [Hh [Ht [Hg _]]]].
-      apply (disk_inv_transfer e (i_cfg s0) (config_commit (front_c e c1)) r).
+    intros Inl _.
+    destruct (Rn0 Inl Go) as [r [Hr [NHr [Shr Ir]]]]. exists r. split; auto. split; auto.
+    assert (Ec1 : c1 = config_shrink e cs) by (unfold c1; rewrite F; reflexivity).
+    destruct (front_c_fields e c1) as [Hb [Hh [Ht [Hg _]]]].
+    split.
+    + apply (shards_inv_transfer e (i_cfg s0) (config_commit (front_c e c1)) r); [|exact Shr].
+      intros x. cbn [config_commit c_b backs_commit b_items]. rewrite Hb, Ec1. apply Eb.
+    + apply (disk_inv_transfer e (i_cfg s0) (config_commit (front_c e c1)) r).
       * intros x. cbn [config_commit c_b backs_commit b_items]. rewrite Hb, Ec1. apply Eb.
       * intros h. cbn [config_commit c_h hosts_commit h_items]. rewrite Hh, Ec1. apply Eh.
       * intros t. cbn [config_commit c_t t_items]. rewrite Ht, Ec1. apply Et.
@@ -1232,8 +1281,8 @@ Proof.
       * apply (di_fmaps _ _ _ I).
       * exact Ir.
   - (* the configuration files were written *)
-    destruct (core_wr e fs c1 (i_disk s0) P1 P2 P3 P4 P5 P6 SF) as [I NH].
-    unfold good, mk_inst. cbn [i_cfg i_disk i_failed i_running i_pending].
+    destruct (core_wr e fs (i_clean s0) c1 (i_disk s0) P1 P2 P3 P4 P5 P5' P6 SF) as [I [Sh NH]].
+    unfold good, mk_inst. cbn [i_cfg i_disk i_failed i_clean i_running i_pending].
     repeat (split; [solve [auto using clean_commit]|]).
     split; [|split; [cbn; discriminate|apply front_c_fmaps]].
     intros Inl _. rewrite Inl. eexists. split; [reflexivity|]. split; auto.
@@ -1252,50 +1301,62 @@ Lemma ph_front_inv : forall e fs c d,
   c_t (fst (fst (ph_front e fs c d))) = c_t c /\ c_glob (fst (fst (ph_front e fs c d))) = c_glob c /\
   d_shard (snd (fst (ph_front e fs c d))) = d_shard d.
 Proof. intros. unfold ph_front. split_ifs; cbn; repeat split. Qed.
-Lemma ph_config_high : forall e fs c d, no_high_shards e d -> no_high_shards e (fst (ph_config e fs c d)).
+Lemma ph_config_high : forall e fs cl c d, (cl = true -> no_high_shards e d) ->
+  (cl = true \/ snd (ph_config e fs cl c d) = false) -> no_high_shards e (fst (ph_config e fs cl c d)).
 Proof.
-  intros e fs c d H. unfold ph_config. destruct (armed fs FMain); cbn [fst]; auto.
-  intros j Hj. cbn [with_shard with_main d_shard].
-  assert (L : (j <? nsh e) = false) by (apply N.ltb_ge; auto). rewrite L. cbn [andb]. apply H; auto.
+  intros e fs cl c d H Hc. unfold ph_config in *. destruct (armed fs FMain); cbn [fst snd] in *.
+  - destruct Hc as [Hc|Hc]; [auto|discriminate].
+  - intros j Hj. cbn [with_shard with_main d_shard].
+    assert (L : (j <? nsh e) = false) by (apply N.ltb_ge; auto). rewrite L. cbn [andb].
+    destruct cl; cbn [orb].
+    + apply H; auto.
+    + destruct Hc as [Hc|Hc]; [discriminate|]. rewrite Hc. reflexivity.
 Qed.
 
 Definition pre_cfg (e : env) (s : inst) : config :=
   if i_failed s then config_change_all e (config_shrink e (i_cfg s)) else config_shrink e (i_cfg s).
 
 Lemma update_f_shape : forall e fs s,
-  exists c d r p,
-    update_f e fs s = (mk_inst (config_commit c) d (snd (update_f e fs s)) r p, snd (update_f e fs s)) /\
+  exists c d cl r p,
+    update_f e fs s = (mk_inst (config_commit c) d (snd (update_f e fs s)) cl r p, snd (update_f e fs s)) /\
     c_b c = c_b (pre_cfg e s) /\ c_h c = c_h (pre_cfg e s) /\ c_t c = c_t (pre_cfg e s) /\
-    c_glob c = c_glob (pre_cfg e s) /\ (no_high_shards e (i_disk s) -> no_high_shards e d).
+    c_glob c = c_glob (pre_cfg e s) /\
+    ((i_clean s = true -> no_high_shards e (i_disk s)) -> cl = true -> no_high_shards e d).
 Proof.
   intros e fs s. unfold update_f. fold (pre_cfg e s).
   pose proof (ph_tcpmaps_shard e fs (pre_cfg e s) (i_disk s)) as S1.
   destruct (ph_tcpmaps e fs (pre_cfg e s) (i_disk s)) as [d1 e1]. cbn [fst] in S1.
   destruct e1.
-  { unfold finish. cbn [snd]. do 4 eexists. split; [reflexivity|]. repeat split; auto. unfold no_high_shards. rewrite S1. auto. }
+  { unfold finish. cbn [snd]. do 5 eexists. split; [reflexivity|]. repeat split; auto.
+    intros H C. unfold no_high_shards. rewrite S1. apply H; auto. }
   pose proof (ph_front_inv e fs (pre_cfg e s) d1) as S2.
   destruct (ph_front e fs (pre_cfg e s) d1) as [[c2 d2] e2]. cbn [fst snd] in S2. destruct S2 as [Hb [Hh [Ht [Hg S2]]]].
   destruct e2.
-  { unfold finish. cbn [snd]. do 4 eexists. split; [reflexivity|]. repeat split; auto. unfold no_high_shards. rewrite S2, S1. auto. }
+  { unfold finish. cbn [snd]. do 5 eexists. split; [reflexivity|]. repeat split; auto.
+    intros H C. unfold no_high_shards. rewrite S2, S1. apply H; auto. }
   pose proof (ph_backmaps_shard e fs c2 d2) as S3.
   destruct (ph_backmaps e fs c2 d2) as [d3 e3]. cbn [fst] in S3.
   destruct e3.
-  { unfold finish. cbn [snd]. do 4 eexists. split; [reflexivity|]. repeat split; auto. unfold no_high_shards. rewrite S3, S2, S1. auto. }
+  { unfold finish. cbn [snd]. do 5 eexists. split; [reflexivity|]. repeat split; auto.
+    intros H C. unfold no_high_shards. rewrite S3, S2, S1. apply H; auto. }
   pose proof (ph_tcpcrt_shard e fs c2 d3) as S4.
   destruct (ph_tcpcrt e fs c2 d3) as [d4 e4]. cbn [fst] in S4.
   destruct e4.
-  { unfold finish. cbn [snd]. do 4 eexists. split; [reflexivity|]. repeat split; auto. unfold no_high_shards. rewrite S4, S3, S2, S1. auto. }
-  assert (N4 : no_high_shards e (i_disk s) -> no_high_shards e d4) by (unfold no_high_shards; rewrite S4, S3, S2, S1; auto).
+  { unfold finish. cbn [snd]. do 5 eexists. split; [reflexivity|]. repeat split; auto.
+    intros H C. unfold no_high_shards. rewrite S4, S3, S2, S1. apply H; auto. }
+  assert (N4 : (i_clean s = true -> no_high_shards e (i_disk s)) -> i_clean s = true -> no_high_shards e d4)
+    by (intros H C; unfold no_high_shards; rewrite S4, S3, S2, S1; apply H; auto).
   destruct (updated e c2).
-  { unfold finish. cbn [snd]. do 4 eexists. split; [reflexivity|]. repeat split; auto. }
-  pose proof (ph_config_high e fs c2 d4) as S5.
-  destruct (ph_config e fs c2 d4) as [d5 e5]. cbn [fst] in S5.
+  { unfold finish. cbn [snd]. do 5 eexists. split; [reflexivity|]. repeat split; auto. }
+  pose proof (ph_config_high e fs (i_clean s) c2 d4) as S5.
+  destruct (ph_config e fs (i_clean s) c2 d4) as [d5 e5]. cbn [fst snd] in S5.
   destruct e5.
-  { unfold finish. cbn [snd]. do 4 eexists. split; [reflexivity|]. repeat split; auto. }
+  { unfold finish. cbn [snd]. do 5 eexists. split; [reflexivity|]. repeat split; auto. }
+  assert (N5 : (i_clean s = true -> no_high_shards e (i_disk s)) -> no_high_shards e d5) by (intros H; apply S5; auto).
   destruct (inline e).
   - destruct (armed fs FReloadRequest || armed fs FReloadResult); unfold finish; cbn [snd];
-      do 4 eexists; (split; [reflexivity|]); repeat split; auto.
-  - unfold finish. cbn [snd]. do 4 eexists. split; [reflexivity|]. repeat split; auto.
+      do 5 eexists; (split; [reflexivity|]); repeat split; auto.
+  - unfold finish. cbn [snd]. do 5 eexists. split; [reflexivity|]. repeat split; auto.
 Qed.
 
 (* no armed fault, no error *)
@@ -1313,7 +1374,7 @@ Proof.
   destruct (ph_tcpcrt e [] c2 d3) as [d4 e4] eqn:P4.
   assert (e4 = false) by (unfold ph_tcpcrt in P4; cbn [armed existsb andb] in P4; inversion P4; auto). subst e4.
   destruct (updated e c2); [reflexivity|].
-  destruct (ph_config e [] c2 d4) as [d5 e5] eqn:P5.
+  destruct (ph_config e [] (i_clean s) c2 d4) as [d5 e5] eqn:P5.
   assert (e5 = false) by (unfold ph_config in P5; cbn [armed existsb shard_fails] in P5; inversion P5; auto). subst e5.
   destruct (inline e); reflexivity.
 Qed.
@@ -1325,9 +1386,9 @@ Proof.
   intros e dn fs s0 l SR R W. unfold step_f.
   destruct (snd (update_f e fs (sync e s0 l))) eqn:Err.
   - (* failed *)
-    destruct (update_f_shape e fs (sync e s0 l)) as [c [d [r [p [U [Hb [Hh [Ht [Hg Hn]]]]]]]]].
+    destruct (update_f_shape e fs (sync e s0 l)) as [c [d [cl [r [p [U [Hb [Hh [Ht [Hg Hn]]]]]]]]]].
     rewrite U. rewrite Err. cbn [fst].
-    destruct R as [D0 [NH0 [Cl0 [Dp0 [G0 St]]]]]. destruct W as [Shape [Oin Rdy]].
+    destruct R as [D0 [Cl0 [Dp0 [G0 [NH0 St]]]]]. destruct W as [Shape [Oin Rdy]].
     set (cs := apply_ops e (i_cfg s0) l) in *.
     assert (Dcs : dom e cs) by (apply dom_apply_ops; auto).
     destruct (mid_batch e (i_cfg s0) l SR D0 Cl0 Shape) as [md Mcs]. fold cs in Mcs.
@@ -1337,13 +1398,13 @@ Proof.
     { unfold pre_cfg. cbn [sync i_failed i_cfg]. fold cs. destruct (i_failed s0); auto using dom_change_all. }
     assert (Rpre : ready dn (pre_cfg e (sync e s0 l))).
     { unfold pre_cfg. cbn [sync i_failed i_cfg]. fold cs. destruct (i_failed s0); auto. }
-    unfold reach, mk_inst. cbn [i_cfg i_disk i_failed].
+    unfold reach, mk_inst. cbn [i_cfg i_disk i_failed i_clean].
     split; [|split; [|split; [|split; [|split]]]].
     + apply dom_commit. unfold dom. rewrite Hb, Hh, Ht. exact Dpre.
-    + apply Hn. exact NH0.
     + apply clean_commit.
     + unfold defp. cbn [config_commit c_b backs_commit b_def b_items]. rewrite Hb. apply Rpre.
     + unfold glob_ok. cbn [config_commit c_globold c_glob]. intros g Hg'. congruence.
+    + apply Hn. exact NH0.
     + left. reflexivity.
   - (* succeeded *)
     apply good_reach. apply (update_good e dn fs s0 l); auto.
@@ -1352,10 +1413,10 @@ Qed.
 
 (* ================================================================ from the invariant to the specification *)
 
-Lemma inv_disk_ok : forall e c d, shard_range e -> dom e c -> no_high_shards e d -> disk_inv e c d ->
+Lemma inv_disk_ok : forall e c d, shard_range e -> dom e c -> no_high_shards e d -> shards_inv e c d -> disk_inv e c d ->
   c_globold c <> None -> c_fmaps c <> None -> disk_ok e c d.
 Proof.
-  intros e c d SR [Db [Dh Dt]] NH I Go Fo.
+  intros e c d SR [Db [Dh Dt]] NH Sh I Go Fo.
   destruct (di_main _ _ _ I Go) as [m [M1 [M2 [M3 [M4 [M5 [f [M6 [M7 M8]]]]]]]]].
   destruct (di_front _ _ _ I Fo) as [[fc [F1 F2]] [F3 F4]].
   assert (AH : any_host e (fs_hosts f) = any_host e (h_items (c_h c))) by (apply any_host_ext; auto).
@@ -1373,7 +1434,7 @@ Proof.
     + destruct (N.eqb_spec (nsh e) 0) as [Z|Z].
       * rewrite (NH (j - 1)) by lia. destruct (N.eqb_spec j 0); auto. congruence.
       * destruct (N.ltb_spec (j - 1) (nsh e)) as [L|L].
-        -- rewrite (di_shard_lo _ _ _ I (j - 1) L x).
+        -- rewrite (Sh (j - 1) L x).
            destruct (N.eqb_spec (sh e x) (j - 1)) as [E|E]; destruct (N.eqb_spec j (sh e x + 1)) as [E'|E']; auto; exfalso; lia.
         -- rewrite (NH (j - 1) L). destruct (N.eqb_spec j (sh e x + 1)) as [E'|E']; auto.
            destruct (b_items (c_b c) x) eqn:Ex; auto. exfalso.
@@ -1409,14 +1470,14 @@ Qed.
 
 Lemma good_disk_ok : forall e dn s, shard_range e -> good e dn s -> disk_ok e (i_cfg s) (i_disk s).
 Proof.
-  intros e dn s SR [D [NH [_ [_ [_ [_ [I [_ [Go Fo]]]]]]]]]. apply inv_disk_ok; auto.
+  intros e dn s SR [D [_ [_ [_ [_ [_ [NH [Sh [I [_ [Go Fo]]]]]]]]]]]. apply inv_disk_ok; auto.
 Qed.
 (* what an inline reload loaded *)
 Lemma good_running_ok : forall e dn s, shard_range e -> good e dn s -> inline e = true ->
   exists r, i_running s = Some r /\ disk_ok e (i_cfg s) r.
 Proof.
-  intros e dn s SR [D [_ [_ [_ [_ [_ [_ [Rn [Go Fo]]]]]]]]] Inl.
-  destruct (Rn Inl Go) as [r [Hr [NHr Ir]]]. exists r. split; auto. apply inv_disk_ok; auto.
+  intros e dn s SR [D [_ [_ [_ [_ [_ [_ [_ [_ [Rn [Go Fo]]]]]]]]]]] Inl.
+  destruct (Rn Inl Go) as [r [Hr [NHr [Shr Ir]]]]. exists r. split; auto. apply inv_disk_ok; auto.
 Qed.
 
 (* ================================================================ histories *)
@@ -1432,27 +1493,35 @@ Proof. intros. unfold port_used. induction (UT e); cbn; auto. rewrite andb_false
 Lemma port_tls_empty : forall e p, port_tls e fempty p = false.
 Proof. intros. unfold port_tls. induction (UT e); cbn; auto. rewrite andb_false_r. auto. Qed.
 
-Lemma reach_empty : forall e dn, reach e dn inst_empty.
+Lemma disk_inv_virgin : forall e d, disk_inv e config_empty d.
 Proof.
-  intros e dn. unfold reach, inst_empty. cbn [i_cfg i_disk i_failed].
-  split; [|split; [|split; [|split; [|split]]]].
-  - unfold dom, dom_b, dom_h, dom_t. cbn. repeat split; intros x H; repeat (destruct H as [H|H]); exfalso; apply H; reflexivity.
-  - intros j _. reflexivity.
-  - unfold clean. cbn. repeat split; auto.
-  - reflexivity.
-  - intros g H. discriminate.
-  - right. split; [reflexivity|]. split; [|split].
-    + constructor; cbn.
-      * intros H. congruence.
-      * intros j _ x. destruct (sh e x =? j); reflexivity.
-      * intros H. congruence.
-      * intros f H. discriminate.
-      * intros x bc H. discriminate.
-      * intros p H. rewrite port_used_empty in H. discriminate.
-      * intros p H. rewrite port_tls_empty in H. discriminate.
-    + intros _ H. cbn in H. congruence.
-    + intros H. cbn in H. congruence.
+  intros e d. constructor; cbn.
+  - intros H. congruence.
+  - intros H. congruence.
+  - intros f H. discriminate.
+  - intros x bc H. discriminate.
+  - intros p H. rewrite port_used_empty in H. discriminate.
+  - intros p H. rewrite port_tls_empty in H. discriminate.
 Qed.
+Lemma dom_empty : forall e, dom e config_empty.
+Proof.
+  intros e. unfold dom, dom_b, dom_h, dom_t. cbn.
+  repeat split; intros x H; repeat (destruct H as [H|H]); exfalso; apply H; reflexivity.
+Qed.
+(* a new instance, whatever the directory holds *)
+Lemma reach_new : forall e dn d r, reach e dn (mk_inst config_empty d false false r false).
+Proof.
+  intros e dn d r. unfold reach, mk_inst. cbn [i_cfg i_disk i_failed i_clean].
+  split; [apply dom_empty|]. split; [unfold clean; cbn; repeat split; auto|].
+  split; [reflexivity|]. split; [intros g H; discriminate|]. split; [discriminate|].
+  right. split; [reflexivity|]. split; [apply disk_inv_virgin|]. split; [|split; [|split]].
+  - intros _ H. cbn in H. congruence.
+  - intros H. cbn in H. congruence.
+  - discriminate.
+  - intros _. split; reflexivity.
+Qed.
+Lemma reach_empty : forall e dn, reach e dn inst_empty.
+Proof. intros e dn. apply (reach_new e dn disk_empty None). Qed.
 
 Lemma reach_hist : forall e dn, shard_range e -> forall h s, reach e dn s -> wf_hist e dn s h -> reach e dn (run_f e s h).
 Proof.
@@ -1482,7 +1551,7 @@ Qed.
 Theorem failure_is_remembered : forall e fs s l s', step_f e fs s l = (s', true) -> i_failed s' = true.
 Proof.
   intros e fs s l s' U. unfold step_f in U.
-  destruct (update_f_shape e fs (sync e s l)) as [c [d [r [p [Us _]]]]]. rewrite U in Us. cbn [snd] in Us.
+  destruct (update_f_shape e fs (sync e s l)) as [c [d [cl [r [p [Us _]]]]]]. rewrite U in Us. cbn [snd] in Us.
   inversion Us. reflexivity.
 Qed.
 
